@@ -488,6 +488,30 @@ func cmdCheck(args []string) {
 	}
 	sort.Strings(invs)
 	trusted = append(trusted, invs...)
+	// modular soundness: callee contracts relied upon must themselves be verified by some property's check
+	verifiedSomewhere := map[string][]string{}
+	if ents, err := os.ReadDir(filepath.Join(*root, "props")); err == nil {
+		for _, e := range ents {
+			var pc PropConfig
+			if readJSON(filepath.Join(*root, "props", e.Name()), &pc) == nil {
+				for _, k := range pc.Verify {
+					verifiedSomewhere[k] = append(verifiedSomewhere[k], pc.ID)
+				}
+			}
+		}
+	}
+	var calleeCts []string
+	for k, isTrusted := range P.assumedCts {
+		switch {
+		case isTrusted:
+			calleeCts = append(calleeCts, k+" (trusted: assumed, not verified)")
+		case len(verifiedSomewhere[k]) > 0:
+			calleeCts = append(calleeCts, k+" (verified under "+strings.Join(verifiedSomewhere[k], ",")+")")
+		default:
+			calleeCts = append(calleeCts, k+" (NOT verified by any check: assumption)")
+		}
+	}
+	sort.Strings(calleeCts)
 	trusted = append([]string{"vc generator (/verif/vc)", "go/ssa + go/types (x/tools v0.29.0) as the semantics of the source", "SMT solvers z3 4.8.12 / z3 5.1.0 / cvc5 1.0"}, trusted...)
 	for _, c := range P.contractList {
 		if c.Trusted {
@@ -538,6 +562,7 @@ func cmdCheck(args []string) {
 			"frame_obligations":        frameCount,
 			"known_findings_hit":       knownHit,
 			"stale_contracts":          stale,
+			"callee_contracts_assumed": calleeCts,
 			"solver_ms":                solverMs,
 			"solver_discharged":        solverCount,
 			"samples":                  samples,
